@@ -16,6 +16,7 @@ import (
 	"math/big"
 	"os"
 	"path/filepath"
+	"sort"
 	"strings"
 	"sync"
 	"time"
@@ -61,6 +62,59 @@ type Env struct {
 	Cache   services.VerifCache
 	FakeCrt convtypes.CrtFile
 	FakeCA  convtypes.CrtFile
+	// Reads records every Get the code under test makes on the cluster: "Kind namespace/name"
+	Reads *ReadLog
+}
+
+// ReadLog is the recording layer between the cache facade and the fake cluster.
+type ReadLog struct {
+	mu   sync.Mutex
+	gets []string
+}
+
+func (r *ReadLog) add(obj client.Object, key client.ObjectKey) {
+	r.mu.Lock()
+	defer r.mu.Unlock()
+	t := fmt.Sprintf("%T", obj)
+	if i := strings.LastIndex(t, "."); i >= 0 {
+		t = t[i+1:]
+	}
+	r.gets = append(r.gets, t+" "+key.Namespace+"/"+key.Name)
+}
+
+// Reset forgets what was read so far.
+func (r *ReadLog) Reset() {
+	r.mu.Lock()
+	defer r.mu.Unlock()
+	r.gets = nil
+}
+
+// Of returns the recorded reads of namespace/name (any kind), sorted and deduplicated.
+func (r *ReadLog) Of(nsname string) []string {
+	r.mu.Lock()
+	defer r.mu.Unlock()
+	seen := map[string]bool{}
+	var out []string
+	for _, g := range r.gets {
+		if strings.HasSuffix(g, " "+nsname) && !seen[g] {
+			seen[g] = true
+			out = append(out, g)
+		}
+	}
+	sort.Strings(out)
+	return out
+}
+
+func recording(log *ReadLog, inner interceptor.Funcs) interceptor.Funcs {
+	get := inner.Get
+	inner.Get = func(ctx context.Context, c client.WithWatch, key client.ObjectKey, obj client.Object, opts ...client.GetOption) error {
+		log.add(obj, key)
+		if get != nil {
+			return get(ctx, c, key, obj, opts...)
+		}
+		return c.Get(ctx, key, obj, opts...)
+	}
+	return inner
 }
 
 var schemeOnce sync.Once
@@ -148,12 +202,13 @@ func NewEnv(dir string, in CfgIn, objs ...client.Object) *Env {
 	}
 	ctx := context.Background()
 	var cli client.WithWatch
+	reads := &ReadLog{}
 	if in.Gateway {
 		cfg.HasGatewayV1 = true
 		cfg.HasTCPRouteA2 = true
-		cli = fake.NewClientBuilder().WithScheme(GatewayScheme()).WithInterceptorFuncs(stamp(GatewayScheme())).WithObjects(objs...).Build()
+		cli = fake.NewClientBuilder().WithScheme(GatewayScheme()).WithInterceptorFuncs(recording(reads, stamp(GatewayScheme()))).WithObjects(objs...).Build()
 	} else {
-		cli = fake.NewClientBuilder().WithScheme(Scheme()).WithObjects(objs...).Build()
+		cli = fake.NewClientBuilder().WithScheme(Scheme()).WithInterceptorFuncs(recording(reads, interceptor.Funcs{})).WithObjects(objs...).Build()
 	}
 	tr := tracker.NewTracker()
 	// the same initialisation as Services.setup
@@ -162,7 +217,7 @@ func NewEnv(dir string, in CfgIn, objs ...client.Object) *Env {
 	if err != nil {
 		panic(err)
 	}
-	return &Env{Ctx: ctx, Dir: dir, Client: cli, Cfg: cfg, Tracker: tr, Dyn: dyn, Cache: cache, FakeCrt: fakeCrt, FakeCA: fakeCA}
+	return &Env{Ctx: ctx, Dir: dir, Client: cli, Cfg: cfg, Tracker: tr, Dyn: dyn, Cache: cache, FakeCrt: fakeCrt, FakeCA: fakeCA, Reads: reads}
 }
 
 // ---- object builders ----
